@@ -6,6 +6,10 @@ import (
 	"reflect"
 
 	"github.com/amzn/ion-go/ion"
+
+	"verif/internal/drive"
+	"verif/internal/refbin"
+	rm "verif/internal/refmodel"
 )
 
 // c18FreshTypes makes the struct-type scenario mint a new reflect type per run (race pass).
@@ -72,6 +76,25 @@ func init() {
 					a := ion.MustParseTimestamp("2020-02-29T23:59:59.999+05:30")
 					b, err := ion.ParseTimestamp("1999-12-31T")
 					return fmt.Sprintf("%v %v %v %v %v", a, b, err, a.GetDateTime().UTC(), a.Equal(b))
+				},
+			}
+		}},
+		c18Scenario{"two binary readers decoding timestamps with local offsets + a binary writer of timestamps", func() []func() string {
+			ts := func(s string) *rm.Value {
+				return rm.TSV(drive.ModelTimestamp(ion.MustParseTimestamp(s)))
+			}
+			a := refbin.EncodeStream(rm.Canon{}, []*rm.Value{ts("2020-02-29T23:59:59.999+05:30"), ts("2001-01-01T00:00-08:00"), ts("2001T")})
+			b := refbin.EncodeStream(rm.Canon{}, []*rm.Value{ts("1999-12-31T23:59:59-08:00"), ts("2010-06-15T12:00+05:30"), ts("2010-06-15T12:00:00.5+01:00")})
+			return []func() string{
+				func() string { return c18Read(a, nil) },
+				func() string { return c18Read(b, nil) },
+				func() string {
+					var out pointWriter
+					w := ion.NewBinaryWriter(&out)
+					w.WriteTimestamp(ion.MustParseTimestamp("2020-02-29T23:59:59.999+05:30"))
+					w.WriteTimestamp(ion.MustParseTimestamp("2001-01-01T00:00-00:00"))
+					err := w.Finish()
+					return fmt.Sprintf("%x %v", out.buf.Bytes(), err)
 				},
 			}
 		}},
